@@ -514,12 +514,12 @@ def m_greedy_initial(case, what):
     return not any(d == 0 and v in case['greedy'] for d, v in zip(dumps, tvals))
 
 
-def m_no_event_with_initial(case, what):
-    """known finding (b): IndexError although an initial value is given, when no event lies before the end of the
-    last dump"""
-    if case.get('init') is None or 'raised IndexError' not in what:
-        return False
-    return not any(d < len(case['ends']) for d in dump_indices(case))
+def m_empty_sensor_arraylike_initial(case, what):
+    """known finding (b'): a sensor with NO samples at all, array-like values (tuples / lists / arrays, i.e. the
+    alphabets katdal wraps in ComparableArrayWrapper) and an initial value: sensor_to_categorical cannot tell from
+    the empty value array that values are wrapped, hands the bare initial value to np.r_ and raises ValueError"""
+    return (case.get('init') is not None and not case.get('ts') and case.get('alpha') in WRAPPED
+            and 'raised ValueError' in what)
 
 
 def m_ndarray_greedy(case, what):
@@ -528,8 +528,7 @@ def m_ndarray_greedy(case, what):
     return case.get('alpha') == 'arr' and bool(case['greedy']) and 'raised ValueError' in what
 
 
-MATCHERS = {'c10_greedy_initial_value_ignored': m_greedy_initial,
-            'c10_no_event_before_end_with_initial_value': m_no_event_with_initial,
+MATCHERS = {'c10_empty_sensor_arraylike_initial_value': m_empty_sensor_arraylike_initial,
             'c10_ndarray_greedy_values': m_ndarray_greedy}
 
 
